@@ -179,6 +179,7 @@ func runC08(w *World, tier string) (bool, interface{}) {
 	c := NewCluster(w, n)
 	c.L.Faults.ShortReads = true
 	c.L.Faults.PermuteResults = true
+	c.L.Faults.BoardDownAtSubmit = w.Tape.Bool(1, 2, "boardOutages") // single submissions refused by the board; operators submit again
 	members := AllMembers(n)
 	for _, op := range c.Ops {
 		// operations of the adversary's round-less reinitialisation are left alone
